@@ -365,6 +365,18 @@ func classify(c ocase, diff []string) string {
 			}
 		}
 	}
+	// two annotation names of one object that only differ by letter case, "_" for "-" or blanks:
+	// names are compared exactly, a reader that normalises them lets map iteration pick
+	for _, o := range all {
+		norm := map[string]string{}
+		for k := range o.GetAnnotations() {
+			n := strings.ReplaceAll(strings.ToLower(strings.ReplaceAll(k, " ", "")), "_", "-")
+			if prev, ok := norm[n]; ok && prev != k && strings.Contains(k, "/") {
+				return "C06/annotation-name-normalised"
+			}
+			norm[n] = k
+		}
+	}
 	// ingresses of one creation stamp whose namespace and name concatenate to the same text
 	// (a/bc and ab/c): the separator of the tie-break key of sortIngress decides
 	var ings []*networking.Ingress
